@@ -665,6 +665,9 @@ func (ab *dsAddrBook) setAddrs(p peer.ID, addrs []ma.Multiaddr, ttl time.Duratio
 				Expiry: newExp,
 			}
 			entries = append(entries, entry)
+			// a later occurrence of the same address in this call must update
+			// this entry instead of storing the address a second time.
+			addrsMap[string(entry.Addr)] = entry
 			if incomingIsUnconnected {
 				unconnectedCount++
 			}
